@@ -1,11 +1,99 @@
-"""C05 - verdict content is faithful to what the services said (DESIGN 5/C05)."""
+"""C05 - verdict content is faithful to what the services said (DESIGN 5/C05).
+
+(a) closed solo searches with monitor M05 (every protocol type answering with every reply kind in every order,
+    incl. two account replies of different length for one instance);
+(b) text dimension: on a fixed skeleton history per reply kind, every text of a boundary-value menu (empty text,
+    trailing / leading blanks, leading ':', '%' conversions, 1..400 characters, high-bit bytes) for NO / AGAIN /
+    MORE, and every account shape (1, 63, 64, 65 characters, ':stamp' suffix, trailing words) for OK - each run on
+    the real daemon and judged by the same observer (relay verbatim, account = the vouched one)."""
+import os
 from . import pcommon
+from .. import common, build, e1, proto, tpool
+
 NEED = ('accept-R', 'accept-D', 'reject', 'reply-MORE', 'reply-AGAIN', 'dronecheck-offers-account', 'mode-x-sent', 'accept-with-class', 'second-stamp')
+
+TEXTS = ['x', 'two words', ':leading colon', 'a : b % c %s %d %n %%', '', 'trailing space ', 'two trailing  ', '  two leading spaces', 'tab\there', 'x' * 64, 'y' * 65, 'z' * 200, 'w' * 400,
+         'high bit \xe9\xff']
+ACCOUNTS = ['a', 'b' * 63, 'c' * 64, 'd' * 65, 'acct:123', ('e' * 62) + ':9', ('f' * 64) + ':9', 'acct extra words', 'acct:5 extra', 'A.b-c_d[e]', 'ka', 'k:0']
+
 
 def plan(tier):
     return pcommon.plan_solo(tier)
 
-def main(tier):
-    return pcommon.run_plan('C05', tier, plan(tier), ('C05.',), NEED)
 
-replay = pcommon.replay
+def variants():
+    vs = []
+    for t in TEXTS:
+        for kind in ('NO', 'AGAIN', 'MORE'):
+            vs.append((kind, {kind: '%s %s' % (kind, t)}))
+    for a in ACCOUNTS:
+        vs.append(('OKA', {'OKA': 'OK ' + a}))
+        vs.append(('OKA2', {'OKA': 'OK longer-first-account:77', 'OKS': 'OK ' + a}))     # second, different stamp after a re-login
+    return vs
+
+
+_W = {}
+
+
+def _job(server, item):
+    k, (kind, replies) = item
+    i = 6000 + k
+    c = dict(proto.CLIENTS[1]); c['replies'] = replies
+    proto.CLIENTS[i] = c
+    w = _W.get('w')
+    if w is None:
+        w = _W['w'] = proto.World(pcommon.G['login+drone'], pcommon.rules_for(pcommon.G['login+drone']), server.banner, 0)
+    if kind == 'OKA':
+        syms = [('C', i), ('H', i), ('P', i, 'x'), ('X', i, 'drone.svc', 'cur', 'OK'), ('X', i, 'login.svc', 'cur', 'OKA')]
+    elif kind == 'OKA2':
+        syms = [('C', i), ('P', i, 'x'), ('X', i, 'login.svc', 'cur', 'OKA'), ('P', i, 'x'), ('X', i, 'login.svc', 'cur', 'OKS'), ('H', i), ('X', i, 'drone.svc', 'cur', 'OK')]
+    else:
+        syms = [('C', i), ('H', i), ('P', i, 'x'), ('X', i, 'login.svc', 'cur', kind)]
+    V, outs, status, err, done = tpool.run_symbolic(server, w, [i], syms)
+    return {'k': k, 'kind': kind, 'replies': replies, 'V': [(t, x, n) for t, x, n in V if t.startswith('C05.')], 'status': status, 'err': err[-1200:],
+            'syms': [list(s) for s in syms], 'outs': outs}
+
+
+def texts(run, tier):
+    b = build.build()
+    conf = e1.conf_text(os.path.join(b, 'mods-wrapped'), services=pcommon.G['login+drone'], timeout=0, rules=pcommon.rules_for(pcommon.G['login+drone']))
+    vs = variants()
+    n = 0
+    relayed = 0
+    sample = None
+    with tpool.TracePool(conf, b, n=8) as tp:
+        for r in tp.imap(_job, list(enumerate(vs)), chunksize=4):
+            if 'harness_error' in r:
+                raise common.HarnessError(r['harness_error'])
+            n += 1
+            if r['status'] != 'ok':
+                run.violation('C05.text/died', '[texts] the daemon died (%s) on reply %r: %s' % (r['status'], r['replies'], (r['err'].strip().splitlines() or ['?'])[0][:160]),
+                              {'engine': 'E1-trace', 'conf': conf, 'replies': r['replies'], 'kind': r['kind']}, dedup='textdied|' + r['kind'])
+            for t, x, idx in r['V']:
+                run.violation(t, '[texts/%s %r] %s' % (r['kind'], r['replies'], x), {'engine': 'E1-trace', 'conf': conf, 'replies': r['replies'], 'kind': r['kind'], 'outputs': r['outs']},
+                              dedup='text|%s|%s|%s' % (t, r['kind'], len(str(r['replies'])) > 80))
+            last = [l for o in r['outs'] for l in o if l[:2] in ('k ', 'C ', 'R ', 'D ')]
+            relayed += len(last)
+            if sample is None and r['kind'] == 'MORE':
+                sample = {'replies': r['replies'], 'outputs': r['outs']}
+    if relayed < len(vs) and not run.violations:
+        raise common.HarnessError('vacuous text dimension: %d verdict/challenge lines for %d variants' % (relayed, len(vs)))
+    return {'text_variants': n, 'text_verdict_or_challenge_lines_checked': relayed, 'text_menu': [t[:40] for t in TEXTS], 'account_menu': [a[:40] for a in ACCOUNTS], 'text_sample': sample}
+
+
+def main(tier):
+    return pcommon.run_plan('C05', tier, plan(tier), ('C05.',), NEED, extra_cov=lambda run: texts(run, tier))
+
+
+def replay(obj):
+    r = obj['replay']
+    if r.get('engine') != 'E1-trace':
+        return pcommon.replay(obj)
+    b = build.build()
+    with e1.Server(r['conf'], builddir=b) as srv:
+        res = _job(srv, (0, (r['kind'], r['replies'])))
+    for s, o in zip(res['syms'], res['outs']):
+        print(s, '->', o)
+    for t, x, n in res['V']:
+        print('!!', t, x)
+    return 1 if res['V'] or res['status'] != 'ok' else 0
